@@ -34,7 +34,7 @@ ASSUMPTIONS = [
 @st.composite
 def _case(draw, tier):
     N = 8 if tier == "quick" else 40
-    form = draw(st.sampled_from(["while", "while", "dowhile", "signal"]))
+    form = draw(st.sampled_from(["while", "while", "dowhile", "signal", "selfsignal"]))
     step = draw(st.sampled_from([1, 1, 2, 3]))
     start = draw(st.integers(0, 5))
     iters = draw(st.integers(0, N))
@@ -55,12 +55,16 @@ def _case(draw, tier):
         "limit_off": draw(st.integers(0, 3)),
         "entry": 0,
     }
+    if form == "selfsignal":
+        L.update({"k": 2, "acc": False, "nested": False, "limit_input": L["limit_input"]})
     if L["nested"]:
         # a nested loop whose cycle has >= 2 nodes cannot be entered at all today (open finding F11, reported by C08):
         # the generator avoids that shape by construction so the budget is spent behind the finding
         L["k"] = 1
     if form == "while" and not L["acc"] and not L["nested"] and L["k"] >= 2 and prob(draw, 0.3):
         L["entry"] = draw(st.integers(1, L["k"] - 1))
+    if form in ("while", "dowhile", "signal") and L["limit_input"] and not L["nested"] and L["entry"] == 0 and prob(draw, 0.35):
+        L["pre_entry"] = True
     return {
         "loop": L,
         "order": draw(st.lists(st.integers(0, 9), min_size=10, max_size=10)),
@@ -102,7 +106,9 @@ def check_case(case, ev):
     env, counts, traj, iters = eval_loop(L)
     vals = loop_values(L)
     labels = {f"form:{L['form']}", f"gate:{L['gate']}", f"exit:{L['exit']}", f"iters:{min(iters, 3)}{'+' if iters >= 3 else ''}"}
-    for f in ("acc", "nested", "limit_input", "step_input"):
+    if L.get("pre_entry"):
+        counts["mk_limit"] = 0  # excluded by with_entrypoint: must never run
+    for f in ("acc", "nested", "limit_input", "step_input", "pre_entry"):
         if L.get(f):
             labels.add(f)
     if L.get("entry"):
